@@ -363,8 +363,14 @@ def check_oblique(rep, sc, rng, idx, threads):
     nrm = normals[idx % len(normals)]
     nx = sc["nx"] * 2
     origin = [sc["origin"][d] * f for d in range(3)]
-    kw = {"origin": osyris.Vector(*origin, unit="cm"), "resolution": nx, "direction": osyris.Vector(*nrm)}
     omit = idx % 4 == 0
+    if omit and idx % 8 == 0:
+        # a plane clipping a corner of the domain: every cell near it lies on one side of the plane
+        far = (idx // 8) % 2 == 0
+        origin = [(0.95 if far else 0.05) * lbox if nrm[d] != 0 else origin[d] for d in range(3)]
+        origin = [o if nrm[d] >= 0 else lbox - o for d, o in enumerate(origin)]
+        nx = 8
+    kw = {"origin": osyris.Vector(*origin, unit="cm"), "resolution": nx, "direction": osyris.Vector(*nrm)}
     if not omit:
         w = [0.02, 0.05, 0.11, 0.3, 0.7, 1.3][idx % 6] * lbox
         kw["dx"] = w * osyris.units("cm")
